@@ -4,7 +4,7 @@
 # /repo), the property's quick check is run against that worktree (VERIF_REPO) and must exit 1; the worktree is removed.
 # Prints one line per seeded change; exit 0 iff every one was detected.
 set -u
-cd /verif
+cd "$(dirname "$(readlink -f "$0")")/.."
 IDS=${@:-$(ls seeded)}
 RC=0
 for ID in $IDS; do
@@ -12,7 +12,7 @@ for ID in $IDS; do
   PROP=${ID:0:3}
   WT=$(mktemp -d /tmp/seeded-wt-XXXXXX); rmdir $WT
   git -C /repo worktree add -q --detach $WT HEAD || { echo "$ID: cannot create worktree"; RC=2; continue; }
-  if ! git -C $WT apply seeded/$ID/patch.diff 2>/dev/null && ! git -C $WT apply /verif/seeded/$ID/patch.diff; then
+  if ! git -C $WT apply "$PWD/seeded/$ID/patch.diff" 2>/dev/null && ! git -C $WT apply "$PWD/seeded/$ID/patch.diff"; then
     echo "$ID: patch does not apply to the current tree"; RC=2
   else
     VERIF_REPO=$WT ./check $PROP --tier quick > /tmp/seeded-check-$ID.log 2>&1; C=$?
